@@ -13,7 +13,6 @@ generator (never guessed from the exception text alone):
   field-override-container   a reachable field carries a field-level serialize callable / serialization_strategy
                              whose return annotation is not a plain class: a parametrised generic (List[str],
                              Dict[str, bool], Optional[str]) or a string (module with `from __future__ import annotations`)
-  final-type                 a reachable dataclass field is annotated Final[...]
   nt-mutable-default         a reachable NamedTuple has a list default
   defs-bare-name-clash       two different specialisations of one generic dataclass are reachable
 """
@@ -245,7 +244,7 @@ class Fam:
         k = r.choice(["List", "list", "Sequence", "Deque", "Set", "FrozenSet", "TupleVar", "TupleFix", "Dict", "Mapping",
                       "OrderedDict", "DefaultDict", "Counter", "ChainMap", "Optional", "Union", "Annotated", "Final",
                       "MutableMapping", "AbstractSet", "Collection", "TupleUnpack", "Optional", "Union", "List", "Dict",
-                      "Annotated", "Generic"])
+                      "Annotated", "Generic", "Final", "Final"])
         self.h("ctor:" + k)
         if k in ("List", "list", "Sequence", "Deque", "Collection"):
             a = self.gen_type(depth - 1, avail)
@@ -332,9 +331,10 @@ class Fam:
             return T(f"Annotated[{a.src}, {', '.join(ann)}]", a.val, immut=a.immut, classes=a.classes, selfref=a.selfref, generic=a.generic)
         if k == "Final":
             a = self.gen_type(depth - 1, avail)
-            if not top or self.kf_wanted != "final-type" or self.kf is not None:
+            # Final[T] is legal only as the outermost annotation of a field; kept out of the families that carry the
+            # Self known finding (same exception text there), so that an unexpected TypeError is never attributed to it
+            if not top or self.kf_wanted == "self-type":
                 return a
-            self.kf = "final-type"
             return T(f"Final[{a.src}]", a.val, immut=a.immut, classes=a.classes, selfref=a.selfref, generic=a.generic, feat="Final")
         if k == "Generic":
             gens = [c for c in avail if self.classes[c].get("generic")]
@@ -677,8 +677,6 @@ class Fam:
             self.kf_wanted = "field-strategy-unannotated"
         elif x < 0.17:
             self.kf_wanted = "defs-bare-name-clash"
-        elif x < 0.20:
-            self.kf_wanted = "final-type"
         elif x < 0.23:
             self.kf_wanted = "nt-mutable-default"
         elif x < 0.26:
@@ -740,11 +738,6 @@ class Fam:
             "cyclic": self.cyclic(t),
             "selftype": any(self.classes[c]["selfref"] for c in reach) or t.selfref,
             "slots_hit": any(self.classes[c].get("slots_hit") for c in reach),
-            # omit_default splices repr(default) into the generated code: a container default is not a literal
-            "omit_default_container": any(self.classes[c].get("omit_default") and any(
-                f.get("default_expr", "").lstrip().startswith(("(", "[", "{", "frozenset(", "set(", "collections.", "NT", "K"))
-                for f in self.classes[c]["all_fields"]) for c in reach),
-            "final": any("Final[" in f["type"].src for c in reach for f in self.classes[c]["all_fields"]),
             "nt_mutable": ("NT3" in t.src) or any("NT3" in f["type"].src for c in reach for f in self.classes[c]["all_fields"]),
             "field_strategy_unannotated": self.kf == "field-strategy-unannotated" and bool(reach),
             "field_override_container": self.kf == "field-override-container" and bool(reach),
